@@ -43,10 +43,10 @@ Qed.
 
 (* one source character: whatever follows, the reader gets the character back *)
 Lemma enc_step c r :
-  c <> 0 -> sq_body (flat_map backslashreplace1 (enc c) ++ r) = cons_opt c (sq_body r)
-            /\ (is_surrogate c = false -> sq_body (enc c ++ r) = cons_opt c (sq_body r)).
+  sq_body (flat_map backslashreplace1 (enc c) ++ r) = cons_opt c (sq_body r)
+  /\ (is_surrogate c = false -> sq_body (enc c ++ r) = cons_opt c (sq_body r)).
 Proof.
-  intros Hc. unfold enc, str_escape_tab. cbn [assoc_esc].
+  unfold enc, str_escape_tab. cbn [assoc_esc].
   repeat match goal with
          | |- context [if N.eqb c ?k then _ else _] =>
            destruct (N.eqb_spec c k) as [->|?]; [split; [reflexivity|intros _; reflexivity]|]
@@ -64,15 +64,12 @@ Proof.
 Qed.
 
 Lemma escaped_body (f : N -> text) s :
-  (forall c r, c <> 0 -> sq_body (f c ++ r) = cons_opt c (sq_body r)) ->
-  forallb (fun c => negb (N.eqb c 0)) s = true ->
+  (forall c r, sq_body (f c ++ r) = cons_opt c (sq_body r)) ->
   sq_body (flat_map f s ++ [39]) = Some s.
 Proof.
-  intros Hf. induction s as [|c s IH]; intros Hs.
+  intros Hf. induction s as [|c s IH].
   - reflexivity.
-  - cbn [forallb] in Hs. apply andb_true_iff in Hs. destruct Hs as [Hc Hs].
-    apply negb_true_iff in Hc. apply N.eqb_neq in Hc.
-    cbn [flat_map]. rewrite <- app_assoc. rewrite Hf by exact Hc. rewrite IH by exact Hs. reflexivity.
+  - cbn [flat_map]. rewrite <- app_assoc. rewrite Hf. rewrite IH. reflexivity.
 Qed.
 
 Lemma flat_map_flat_map {X Y Z : Type} (f : X -> list Y) (g : Y -> list Z) l :
@@ -81,20 +78,17 @@ Proof.
   induction l as [|x l IH]; [reflexivity|]. cbn [flat_map]. rewrite flat_map_app. rewrite IH. reflexivity.
 Qed.
 
-(* every code-point string without NUL -- lone surrogates included (the backslashreplace branch) -- reads back *)
-Theorem str_escape_roundtrip s :
-  forallb (fun c => negb (N.eqb c 0)) s = true -> read_sq (39 :: str_escape s ++ [39]) = Some s.
+(* every code-point string -- NUL and lone surrogates (the backslashreplace branch) included -- reads back *)
+Theorem str_escape_roundtrip s : read_sq (39 :: str_escape s ++ [39]) = Some s.
 Proof.
-  intros Hs. cbn [read_sq]. unfold str_escape.
+  cbn [read_sq]. unfold str_escape.
   destruct (existsb is_surrogate (flat_map enc s)) eqn:E.
-  - rewrite flat_map_flat_map. apply escaped_body; [|exact Hs].
-    intros c r Hc. apply (proj1 (enc_step c r Hc)).
-  - apply escaped_body; [|exact Hs].
-    intros c r Hc.
-    (* no surrogate anywhere: in particular not c, which enc leaves alone *)
+  - rewrite flat_map_flat_map. apply escaped_body.
+    intros c r. apply (proj1 (enc_step c r)).
+  - apply escaped_body.
+    intros c r.
     destruct (is_surrogate c) eqn:Hsur.
-    + (* then enc c = [c] contains one; but this branch is only used pointwise: go through the other reading *)
-      pose proof (proj1 (enc_step c r Hc)) as H1.
+    + (* a raw surrogate is a plain character for the reader as well *)
       assert (He : enc c = [c]).
       { unfold enc, str_escape_tab. cbn [assoc_esc].
         unfold is_surrogate in Hsur. apply andb_true_iff in Hsur. destruct Hsur as [Hlo _]. apply N.leb_le in Hlo.
@@ -102,10 +96,7 @@ Proof.
                | |- context [if N.eqb c ?k then _ else _] => destruct (N.eqb_spec c k) as [->|?]; [lia|]
                end.
         reflexivity. }
-      rewrite He in *. cbn [flat_map] in H1. rewrite app_nil_r in H1. unfold backslashreplace1 in H1.
-      rewrite Hsur in H1.
-      (* the raw surrogate is a plain character for the reader as well *)
-      cbn [app sq_body].
+      rewrite He. cbn [app sq_body].
       unfold is_surrogate in Hsur. apply andb_true_iff in Hsur. destruct Hsur as [Hlo _]. apply N.leb_le in Hlo.
       replace (N.eqb c 39) with false by (symmetry; apply N.eqb_neq; lia).
       replace (N.eqb c 0) with false by (symmetry; apply N.eqb_neq; lia).
@@ -113,7 +104,7 @@ Proof.
       replace (N.eqb c 13) with false by (symmetry; apply N.eqb_neq; lia).
       replace (N.eqb c 92) with false by (symmetry; apply N.eqb_neq; lia).
       reflexivity.
-    + apply (proj2 (enc_step c r Hc) Hsur).
+    + apply (proj2 (enc_step c r) Hsur).
 Qed.
 
 (* when a lone surrogate is present, every surrogate is shown in the \udXXX form and nothing else changes *)
@@ -130,4 +121,77 @@ Proof.
          | |- context [if N.eqb c ?k then _ else _] => destruct (N.eqb_spec c k) as [->|?]; [reflexivity|]
          end.
   cbn [existsb]. rewrite orb_false_r. apply N.eqb_neq. congruence.
+Qed.
+
+(* ------------------------------------------------------------------ _bytes_escape (as repaired by 69ea9c3) *)
+Definition bpiece (q c : N) : text :=
+  if N.eqb q DQ then flat_map requote1 (bytes_repr1 q c) else bytes_repr1 q c.
+
+Lemma bytes_escape_pieces b : bytes_escape b = flat_map (bpiece (bytes_quote b)) b.
+Proof.
+  unfold bytes_escape, bpiece. destruct (N.eqb (bytes_quote b) DQ).
+  - apply flat_map_flat_map.
+  - reflexivity.
+Qed.
+
+Lemma hex2_digits c : c < 256 -> hex2 (hex_digit (c / 16)) (hex_digit (c mod 16)) = Some c.
+Proof.
+  intros H. unfold hex2.
+  rewrite (hexval_hex_digit (c / 16)) by (apply N.div_lt_upper_bound; lia).
+  rewrite (hexval_hex_digit (c mod 16)) by (apply N.mod_lt; lia).
+  f_equal. pose proof (N.div_mod c 16 ltac:(lia)). lia.
+Qed.
+
+(* one byte, either quote style: whatever follows, the reader gets the byte back *)
+Lemma bpiece_step q c r :
+  (q = 34 \/ q = 39) -> c < 256 -> bq_body (bpiece q c ++ r) = cons_opt c (bq_body r).
+Proof.
+  intros Hq Hc. unfold bpiece, bytes_repr1, DQ, BSL.
+  destruct (N.eqb_spec c q) as [->|Hcq].
+  - destruct Hq as [->| ->]; reflexivity.
+  - cbn [orb]. destruct (N.eqb_spec c 92) as [->|H92]; [destruct Hq as [->| ->]; reflexivity|].
+    destruct (N.eqb_spec c 9) as [->|H9]; [destruct Hq as [->| ->]; reflexivity|].
+    destruct (N.eqb_spec c 10) as [->|H10]; [destruct Hq as [->| ->]; reflexivity|].
+    destruct (N.eqb_spec c 13) as [->|H13]; [destruct Hq as [->| ->]; reflexivity|].
+    destruct ((c <? 32) || (127 <=? c)) eqn:E.
+    + (* \xhh : the two hex digits are not quotes *)
+      assert (Hx : bq_body ([92; 120; hex_digit (c / 16); hex_digit (c mod 16)] ++ r) = cons_opt c (bq_body r)).
+      { cbn [app bq_body]. cbn [N.eqb Pos.eqb orb is_octal N.leb N.compare Pos.compare Pos.compare_cont andb].
+        rewrite (hex2_digits c Hc). reflexivity. }
+      assert (Hd : forall d, d < 16 -> requote1 (hex_digit d) = [hex_digit d]).
+      { intros d Hd. unfold requote1, SQ, hex_digit.
+        destruct (N.ltb_spec d 10); (replace (N.eqb _ 39) with false by (symmetry; apply N.eqb_neq; lia)); reflexivity. }
+      destruct Hq as [->| ->]; cbn [N.eqb Pos.eqb]; [|exact Hx].
+      cbn [flat_map]. unfold requote1 at 1 2. cbn [N.eqb Pos.eqb SQ app].
+      rewrite (Hd (c / 16)) by (apply N.div_lt_upper_bound; lia).
+      rewrite (Hd (c mod 16)) by (apply N.mod_lt; lia).
+      rewrite app_nil_r. exact Hx.
+    + apply orb_false_iff in E. destruct E as [E1 E2]. apply N.ltb_ge in E1. apply N.leb_gt in E2.
+      assert (Hplain : c <> 39 -> bq_body ([c] ++ r) = cons_opt c (bq_body r)).
+      { intros H39. cbn [app bq_body].
+        replace (N.eqb c 39) with false by (symmetry; apply N.eqb_neq; lia).
+        replace (N.eqb c 0) with false by (symmetry; apply N.eqb_neq; lia).
+        replace (N.eqb c 10) with false by (symmetry; apply N.eqb_neq; lia).
+        replace (N.eqb c 13) with false by (symmetry; apply N.eqb_neq; lia).
+        replace (N.eqb c 92) with false by (symmetry; apply N.eqb_neq; lia).
+        replace (128 <=? c) with false by (symmetry; apply N.leb_gt; lia).
+        reflexivity. }
+      destruct Hq as [->| ->]; cbn [N.eqb Pos.eqb].
+      * cbn [flat_map]. rewrite app_nil_r. unfold requote1, SQ.
+        destruct (N.eqb_spec c 39) as [->|H39]; [reflexivity|apply Hplain; exact H39].
+      * apply Hplain. exact Hcq.
+Qed.
+
+Lemma bytes_quote_cases raw : bytes_quote raw = 34 \/ bytes_quote raw = 39.
+Proof. unfold bytes_quote, DQ, SQ. destruct (existsb (N.eqb 39) raw && negb (existsb (N.eqb 34) raw)); auto. Qed.
+
+(* every byte string reads back from b'<escaped>' *)
+Theorem bytes_escape_roundtrip b :
+  forallb (fun c => c <? 256) b = true -> read_bq (98 :: 39 :: bytes_escape b ++ [39]) = Some b.
+Proof.
+  intros Hb. cbn [read_bq]. rewrite bytes_escape_pieces.
+  pose proof (bytes_quote_cases b) as Hq. revert Hq. generalize (bytes_quote b) as q. intros q Hq.
+  induction b as [|c b IH]; [reflexivity|].
+  cbn [forallb] in Hb. apply andb_true_iff in Hb. destruct Hb as [Hc Hb]. apply N.ltb_lt in Hc.
+  cbn [flat_map]. rewrite <- app_assoc. rewrite (bpiece_step q c _ Hq Hc). rewrite (IH Hb). reflexivity.
 Qed.
